@@ -19,11 +19,50 @@ def default_run(pid, tier):
     return res["engines"]
 
 
+def c16_run(pid, tier):
+    import c16_lifetime
+    binary, _ = common.build_props("std")
+    res = common.run_engine(binary, pid, tier)
+    engines = res["engines"]
+    if res.get("signal"):
+        # a memory fault under safe API use *is* this property's failure
+        e = common.mk_engine("c16-scratch-sweep", "scratch-slot sweep (process died)", "")
+        e["executions"] = e["states"] = e["transitions"] = 1
+        e["violations"].append(common.viol("scratch-slot:process-died-with-signal-%d" % res["signal"],
+                                           "the sweep process was killed by signal %d; stderr tail: %s" % (res["signal"], res.get("stderr", "")[-800:])))
+        engines = [e]
+    engines.extend(c16_lifetime.run(tier))
+    if tier == "thorough":
+        import c16_miri
+        engines.append(c16_miri.run())
+    return engines
+
+
+def c17_run(pid, tier):
+    import c17_extra
+    engines = default_run(pid, tier)
+    engines.append(c17_extra.downstream())
+    engines.append(c17_extra.threads(tier))
+    return engines
+
+
 def spec(level, extra_assume=None, run=default_run):
     return {"level": level, "assumptions": COMMON_ASSUME + (extra_assume or []), "run": run}
 
 
 TABLE = {
+    "C17": spec("model_checking", [
+        "thread clause: shuttle's scheduler is sequentially consistent and intercepts Mutex/RwLock operations, spawn/join and "
+        "yield_now; weak-memory behaviour inside std's locks is std's responsibility; the property's '2..8 threads x 1e3..1e5 "
+        "increments' stress framing is replaced by ALL schedules of 2-4 threads x 1-3 increments",
+        "reference.rs is compiled unmodified (by #[path]) into a no_std crate whose `std` is a shim re-exporting shuttle::sync",
+        "to_dyn! clause: rrtk itself is built with std; the calling crate's features named alloc/std are toggled"], run=c17_run),
+    "C16": spec("model_checking", [
+        "scratch-slot clause: decided with the rrtk_verif poison hook on (0x7F fill); thorough tier additionally runs the "
+        "same cases with the hook off under Miri",
+        "lifetime clause: 'all safe programs' is replaced by a generated family of probe programs (per accessor x "
+        "{drop, move, drop-with-connected-partner} x {read, write}, raw-pointer API probes) with rustc's borrow checker as "
+        "oracle; controls guard against vacuous probes"], run=c16_run),
     "C01": spec("exploration", [
         "unit exponents are read from the two-byte representation of Unit (field order calibrated against the derived "
         "Debug output), so the oracle does not rely on the crate's own equality code",
